@@ -71,6 +71,10 @@ Compatible(B) == /\ Cardinality(B \cap {"tagunit1", "tagunit2", "dimunit1", "dim
 Repairable == Breaches \ {"ndims_extra", "ndims_extra2", "nopositions", "featnodata", "featnodata2"}
 
 ErrorAt(B) == {Rules[b].at : b \in {x \in B : Rules[x].hard}}
+\* soft rules: a breach is reported as a warning for the entity (never as an error); "dupticks" is no breach at all
+Conforming == {"dupticks"}
+SoftRules == {b \in Breaches : ~Rules[b].hard} \ Conforming
+WarnAt(B) == {Rules[b].at : b \in B \cap SoftRules}
 
 CONSTANTS MaxBreaches,   \* breaches already present when the history starts (old function-like mode: any subset up to this size)
           MaxSteps, Acts
@@ -80,7 +84,8 @@ VARIABLES cur,      \* breaches present in the file
           steps, last, hist
 vars == <<cur, vs, c0, steps, last, hist>>
 NoErr == [e \in Entities |-> FALSE]
-Call(a, b, B) == [a |-> a, b |-> b, errors |-> [e \in Entities |-> e \in ErrorAt(B)]]
+Call(a, b, B) == [a |-> a, b |-> b, errors |-> [e \in Entities |-> e \in ErrorAt(B)],
+                  warns |-> [e \in Entities |-> e \in WarnAt(B)]]   \* entities that must carry at least one warning
 Step(c) == last' = c /\ hist' = Append(hist, c) /\ steps' = steps + 1 /\ c0' = c0
 Room == steps < MaxSteps
 
@@ -101,8 +106,10 @@ Expected(B) == [e \in Entities |-> e \in ErrorAt(B)]
 Sound == (cur = {}) => ErrorAt(cur) = {}
 SoftNeverError == (\A b \in cur : ~Rules[b].hard) => ErrorAt(cur) = {}
 Complete == \A b \in cur : Rules[b].hard => Rules[b].at \in ErrorAt(cur)
+\* every soft-rule breach is reported, as a warning, and by itself never makes its entity carry an error
+SoftWarns == \A b \in cur \cap SoftRules : Rules[b].at \in WarnAt(cur) /\ (Rules[b].at \in ErrorAt(cur) => \E h \in cur : Rules[h].hard /\ Rules[h].at = Rules[b].at)
 \* the verdict of a run depends on the breaches present and on nothing else
-HistoryFree == [][last'.a = "Validate" => last'.errors = Expected(cur')]_vars
+HistoryFree == [][last'.a = "Validate" => (last'.errors = Expected(cur') /\ last'.warns = [e \in Entities |-> e \in WarnAt(cur')])]_vars
 \* a repaired file validates like one that never had the breach; in particular the conforming file has no error again
 RepairRestores == [][(last'.a = "Validate" /\ cur' = {}) => \A e \in Entities : ~last'.errors[e]]_vars
 
